@@ -257,12 +257,20 @@ structure CInv (s : Ctl) : Prop where
   lock : s.lockHeld = true ↔ s.sender ≠ .idle
   /-- while the sender is flushing, the flag is set -/
   busy : s.sender ≠ .idle → s.sending = true
+  /-- a fatal socket error marks the connection disconnected, for good -/
+  fat : s.fatal = true → s.disc = true
 
 theorem cinit_inv (pb : Nat) : CInv { pb := pb } :=
   CInv.mk (by intro _; rfl) (⟨[], rfl⟩) (by intro _; exact ⟨rfl, rfl⟩) (by intro d h; cases h) (by simp) (by simp)
+    (by intro h; cases h)
+
+theorem fatal_false_of_live {s : Ctl} (hfa : s.fatal = true → s.disc = true) (hd : s.disc = false) : s.fatal = false := by
+  cases hf : s.fatal with
+  | false => rfl
+  | true => have := hfa hf; rw [hd] at this; cases this
 
 theorem cstep_inv (s s' : Ctl) (a : Act) (h : CInv s) (hs : cstep s a = some s') : CInv s' := by
-  obtain ⟨hst, ⟨t, hpf⟩, hfl, hdi, hlk, hbz⟩ := h
+  obtain ⟨hst, ⟨t, hpf⟩, hfl, hdi, hlk, hbz, hfa⟩ := h
   cases a with
   | coopCheck d =>
     simp only [cstep] at hs
@@ -273,11 +281,11 @@ theorem cstep_inv (s s' : Ctl) (a : Act) (h : CInv s) (hs : cstep s a = some s')
       obtain ⟨hidle, hd0⟩ := hen
       have hidle' : s.coop = .idle := by simpa using hidle
       split at hs
-      · cases hs; exact CInv.mk (hst) (⟨t, hpf⟩) (hfl) (hdi) (hlk) (hbz)
+      · cases hs; exact CInv.mk (hst) (⟨t, hpf⟩) (hfl) (hdi) (hlk) (hbz) (by first | exact hfa | (intro hf; cases hf))
       · rename_i hdisc
         have hdisc' : s.disc = false := by simpa using hdisc
         cases hs
-        refine CInv.mk (?_) (⟨t ++ d, by simp [← hpf, List.append_assoc]⟩) (hfl) (?_) (hlk) (hbz)
+        refine CInv.mk (?_) (⟨t ++ d, by simp [← hpf, List.append_assoc]⟩) (hfl) (?_) (hlk) (hbz) (by first | exact hfa | (intro hf; cases hf))
         · intro _
           have := hst hdisc'
           simp only [inflight, hidle', List.append_nil] at this
@@ -291,34 +299,35 @@ theorem cstep_inv (s s' : Ctl) (a : Act) (h : CInv s) (hs : cstep s a = some s')
     · -- saw = true: go to the deferred path
       rename_i d hco
       cases hs
-      refine CInv.mk (?_) (⟨t, hpf⟩) (hfl) (?_) (hlk) (hbz)
+      refine CInv.mk (?_) (⟨t, hpf⟩) (hfl) (?_) (hlk) (hbz) (by first | exact hfa | (intro hf; cases hf))
       · intro hd; have := hst hd; simpa [inflight, hco] using this
       · intro d' hc; cases hc
     · rename_i d hco
       obtain ⟨hp0, hd0⟩ := hdi d hco
+      have hf0 : s.fatal = false := fatal_false_of_live hfa hd0
       have hstream : s.accepted ++ d = s.queued := by
         have := hst hd0; simpa [inflight, hco, hp0] using this
-      simp only [hd0, Bool.false_eq_true, if_false] at hs
+      simp only [hd0, hf0, Bool.false_eq_true, if_false] at hs
       cases o with
       | again =>
         simp only [] at hs
         cases hs
-        refine CInv.mk (?_) (⟨t, hpf⟩) (hfl) (?_) (hlk) (hbz)
+        refine CInv.mk (?_) (⟨t, hpf⟩) (hfl) (?_) (hlk) (hbz) (by first | exact hfa | (intro hf; cases hf))
         · intro _; simpa [inflight, hp0] using hstream
         · intro d' hc; cases hc
       | fatal =>
         simp only [] at hs
         cases hs
-        exact CInv.mk (by intro hh; cases hh) (⟨t, hpf⟩) (hfl) (by intro d' hc; cases hc) (hlk) (hbz)
+        exact CInv.mk (by intro hh; cases hh) (⟨t, hpf⟩) (hfl) (by intro d' hc; cases hc) (hlk) (hbz) (fun _ => rfl)
       | accept k =>
         simp only [] at hs
         split at hs
         · cases hs
-          refine CInv.mk (?_) (⟨[], by simpa using hstream⟩) (hfl) (?_) (hlk) (hbz)
+          refine CInv.mk (?_) (⟨[], by simpa using hstream⟩) (hfl) (?_) (hlk) (hbz) (by first | exact hfa | (intro hf; cases hf))
           · intro _; simpa [inflight, hp0] using hstream
           · intro d' hc; cases hc
         · cases hs
-          refine CInv.mk (?_) (⟨d.drop (min k d.length), by rw [List.append_assoc, List.take_append_drop]; exact hstream⟩) (hfl) (?_) (hlk) (hbz)
+          refine CInv.mk (?_) (⟨d.drop (min k d.length), by rw [List.append_assoc, List.take_append_drop]; exact hstream⟩) (hfl) (?_) (hlk) (hbz) (by first | exact hfa | (intro hf; cases hf))
           · intro _
             simp only [inflight, hp0, List.flatten_nil, List.append_nil]
             rw [List.append_assoc, List.take_append_drop]; exact hstream
@@ -333,9 +342,9 @@ theorem cstep_inv (s s' : Ctl) (a : Act) (h : CInv s) (hs : cstep s a = some s')
       · split at hs
         · rename_i hdisc
           cases hs
-          exact CInv.mk (by intro hd; simp [hdisc] at hd) (⟨t, hpf⟩) (hfl) (by intro d' hc; cases hc) (hlk) (hbz)
+          exact CInv.mk (by intro hd; simp [hdisc] at hd) (⟨t, hpf⟩) (hfl) (by intro d' hc; cases hc) (hlk) (hbz) (by first | exact hfa | (intro hf; cases hf))
         · cases hs
-          refine CInv.mk (?_) (⟨t, hpf⟩) (by intro hh; cases hh) (by intro d' hc; cases hc) (hlk) (by intro _; rfl)
+          refine CInv.mk (?_) (⟨t, hpf⟩) (by intro hh; cases hh) (by intro d' hc; cases hc) (hlk) (by intro _; rfl) (by first | exact hfa | (intro hf; cases hf))
           intro hd
           have := hst hd
           simp only [inflight, hco] at this
@@ -347,7 +356,7 @@ theorem cstep_inv (s s' : Ctl) (a : Act) (h : CInv s) (hs : cstep s a = some s')
     · rename_i hen
       obtain ⟨hidle, hnl, hpn⟩ := hen
       cases hs
-      refine CInv.mk (by intro hd; simpa [inflight] using hst hd) (⟨t, hpf⟩) (hfl) (hdi) (by simp) (?_)
+      refine CInv.mk (by intro hd; simpa [inflight] using hst hd) (⟨t, hpf⟩) (hfl) (hdi) (by simp) (?_) (by first | exact hfa | (intro hf; cases hf))
       intro _
       cases hsd : s.sending with
       | true => rfl
@@ -363,32 +372,34 @@ theorem cstep_inv (s s' : Ctl) (a : Act) (h : CInv s) (hs : cstep s a = some s')
       have hsend : s.sending = true := hbz (by simp [hflush])
       split at hs
       · cases hs
-        exact CInv.mk (by intro hd; simpa [inflight] using hst hd) (⟨t, hpf⟩) (hfl) (hdi) (by simp [hlock]) (by intro _; exact hsend)
+        exact CInv.mk (by intro hd; simpa [inflight] using hst hd) (⟨t, hpf⟩) (hfl) (hdi) (by simp [hlock]) (by intro _; exact hsend) (by first | exact hfa | (intro hf; cases hf))
       · rename_i d rest hpend
         have hnodirect : ∀ d', s.coop ≠ .checked d' false := by
           intro d' hc; have := (hdi d' hc).1; rw [hpend] at this; cases this
         by_cases hdisc : s.disc = true
-        · simp only [hdisc, if_true] at hs
-          cases hs
-          exact CInv.mk (by intro hh; cases hh) (⟨t, hpf⟩) (by simp [hsend]) (by intro d' hc; exact absurd hc (hnodirect d')) (by simp) (by simp)
+        · cases hf : s.fatal <;>
+          · simp only [hdisc, hf, Bool.false_eq_true, if_true, if_false] at hs
+            cases hs
+            exact CInv.mk (by intro hh; cases hh) (⟨t, hpf⟩) (by simp [hsend]) (by intro d' hc; exact absurd hc (hnodirect d')) (by simp) (by simp) (fun _ => rfl)
         · have hd0 : s.disc = false := by simpa using hdisc
-          simp only [hd0, Bool.false_eq_true, if_false] at hs
+          have hf0 : s.fatal = false := fatal_false_of_live hfa hd0
+          simp only [hd0, hf0, Bool.false_eq_true, if_false] at hs
           have hstream := hst hd0
           rw [hpend] at hstream
           cases o with
           | again =>
             simp only [] at hs
             cases hs
-            exact CInv.mk (by intro _; simpa [inflight, hpend] using hstream) (⟨t, hpf⟩) (hfl) (by intro d' hc; exact absurd hc (hnodirect d')) (by simp [hlock]) (by intro _; exact hsend)
+            exact CInv.mk (by intro _; simpa [inflight, hpend] using hstream) (⟨t, hpf⟩) (hfl) (by intro d' hc; exact absurd hc (hnodirect d')) (by simp [hlock]) (by intro _; exact hsend) (by first | exact hfa | (intro hf; cases hf))
           | fatal =>
             simp only [] at hs
             cases hs
-            exact CInv.mk (by intro hh; cases hh) (⟨t, hpf⟩) (by simp [hsend]) (by intro d' hc; exact absurd hc (hnodirect d')) (by simp) (by simp)
+            exact CInv.mk (by intro hh; cases hh) (⟨t, hpf⟩) (by simp [hsend]) (by intro d' hc; exact absurd hc (hnodirect d')) (by simp) (by simp) (fun _ => rfl)
           | accept k =>
             simp only [] at hs
             split at hs
             · cases hs
-              refine CInv.mk (?_) (⟨rest.flatten ++ inflight s, ?_⟩) (by simp [hsend]) (?_) (by simp [hlock, hflush]) (by intro _; exact hsend)
+              refine CInv.mk (?_) (⟨rest.flatten ++ inflight s, ?_⟩) (by simp [hsend]) (?_) (by simp [hlock, hflush]) (by intro _; exact hsend) (by first | exact hfa | (intro hf; cases hf))
               · intro _
                 simp only [List.flatten_cons] at hstream
                 simpa [inflight, List.append_assoc] using hstream
@@ -396,7 +407,7 @@ theorem cstep_inv (s s' : Ctl) (a : Act) (h : CInv s) (hs : cstep s a = some s')
                 simpa [List.append_assoc] using hstream
               · intro d' hc; exact absurd hc (hnodirect d')
             · cases hs
-              refine CInv.mk (?_) (⟨(d.drop (min k d.length) :: rest).flatten ++ inflight s, ?_⟩) (by simp [hsend]) (?_) (by simp [hlock]) (by intro _; exact hsend)
+              refine CInv.mk (?_) (⟨(d.drop (min k d.length) :: rest).flatten ++ inflight s, ?_⟩) (by simp [hsend]) (?_) (by simp [hlock]) (by intro _; exact hsend) (by first | exact hfa | (intro hf; cases hf))
               · intro _
                 simp only [List.flatten_cons] at hstream ⊢
                 have : s.accepted ++ List.take (min k d.length) d ++ (List.drop (min k d.length) d ++ rest.flatten)
@@ -418,15 +429,15 @@ theorem cstep_inv (s s' : Ctl) (a : Act) (h : CInv s) (hs : cstep s a = some s')
     · split at hs
       · rename_i hcond
         cases hs
-        exact CInv.mk (by intro hd; simpa [inflight] using hst hd) (⟨t, hpf⟩) (by intro _; exact ⟨hcond.1, by simpa using hcond.2⟩) (hdi) (by simp) (by simp)
+        exact CInv.mk (by intro hd; simpa [inflight] using hst hd) (⟨t, hpf⟩) (by intro _; exact ⟨hcond.1, by simpa using hcond.2⟩) (hdi) (by simp) (by simp) (by first | exact hfa | (intro hf; cases hf))
       · cases hs
-        exact CInv.mk (by intro hd; simpa [inflight] using hst hd) (⟨t, hpf⟩) (hfl) (hdi) (by simp) (by simp)
+        exact CInv.mk (by intro hd; simpa [inflight] using hst hd) (⟨t, hpf⟩) (hfl) (hdi) (by simp) (by simp) (by first | exact hfa | (intro hf; cases hf))
   | envEnq =>
     simp only [cstep] at hs
     split at hs
     · cases hs
     · cases hs
-      exact CInv.mk (by intro hd; simpa [inflight] using hst hd) (⟨t, hpf⟩) (by intro hh; cases hh) (hdi) (hlk) (by intro _; rfl)
+      exact CInv.mk (by intro hd; simpa [inflight] using hst hd) (⟨t, hpf⟩) (by intro hh; cases hh) (hdi) (hlk) (by intro _; rfl) (by first | exact hfa | (intro hf; cases hf))
   | envDone reset =>
     simp only [cstep] at hs
     split at hs
@@ -441,9 +452,31 @@ theorem cstep_inv (s s' : Ctl) (a : Act) (h : CInv s) (hs : cstep s a = some s')
       split at hs
       · rename_i hcond
         cases hs
-        exact CInv.mk (by intro hd; simpa [inflight] using hst hd) (⟨t, hpf⟩) (by intro _; exact ⟨hcond.2, rfl⟩) (hdi) (hlk) (by intro hh; exact absurd hidle hh)
+        exact CInv.mk (by intro hd; simpa [inflight] using hst hd) (⟨t, hpf⟩) (by intro _; exact ⟨hcond.2, rfl⟩) (hdi) (hlk) (by intro hh; exact absurd hidle hh) (by first | exact hfa | (intro hf; cases hf))
       · cases hs
-        exact CInv.mk (by intro hd; simpa [inflight] using hst hd) (⟨t, hpf⟩) (by intro hh; exact ⟨(hfl hh).1, rfl⟩) (hdi) (hlk) (hbz)
+        exact CInv.mk (by intro hd; simpa [inflight] using hst hd) (⟨t, hpf⟩) (by intro hh; exact ⟨(hfl hh).1, rfl⟩) (hdi) (hlk) (hbz) (by first | exact hfa | (intro hf; cases hf))
+  | envDisc =>
+    simp only [cstep] at hs
+    cases hs
+    exact CInv.mk (hst) (⟨t, hpf⟩) (hfl) (hdi) (hlk) (hbz) (by first | exact hfa | (intro hf; cases hf))
+  | coopDisc =>
+    simp only [cstep] at hs
+    split at hs
+    · cases hs
+    · rename_i hidle
+      have hidle' : s.coop = .idle := by simpa using hidle
+      cases hs
+      exact CInv.mk (by intro hh; cases hh) (⟨t, hpf⟩) (hfl) (by intro d' hc; rw [hidle'] at hc; cases hc) (hlk) (hbz) (fun _ => rfl)
+  | senderPurge =>
+    simp only [cstep] at hs
+    split at hs
+    · rename_i hen
+      obtain ⟨hidle, hnl, hdisc⟩ := hen
+      cases hs
+      refine CInv.mk (by intro hh; rw [hdisc] at hh; cases hh) (⟨t, hpf⟩) (by intro hh; exact ⟨rfl, (hfl hh).2⟩) (?_) (hlk) (hbz) (by first | exact hfa | (intro hf; cases hf))
+      intro d' hc
+      have := (hdi d' hc).2; rw [hdisc] at this; cases this
+    · cases hs
 
 theorem crun_inv (acts : List Act) : ∀ (s : Ctl), CInv s → CInv (crun s acts) := by
   induction acts with
@@ -455,10 +488,10 @@ theorem crun_inv (acts : List Act) : ∀ (s : Ctl), CInv s → CInv (crun s acts
     | none => simpa using ih s h
     | some s' => simpa using ih s' (cstep_inv s s' a h hs)
 
-/-- second invariant (needs repair C20-R1): a disconnected connection has nothing queued for the sender thread and no
-`sock.send` has ever been attempted on it after the disconnect -/
+/-- second invariant (needs repair C20-R1): after a fatal socket error nothing is queued for the sender thread and no
+`sock.send` has ever been attempted on that socket again -/
 structure NoAtt (s : Ctl) : Prop where
-  empty : s.disc = true → s.pending = []
+  empty : s.fatal = true → s.pending = []
   quiet : s.offeredAfterDisc = 0
 
 theorem cinit_noatt (pb : Nat) : NoAtt { pb := pb } := NoAtt.mk (by intro h; cases h) (rfl)
@@ -470,20 +503,21 @@ theorem cstep_noatt (s s' : Ctl) (a : Act) (h : CInv s) (n : NoAtt s) (hs : cste
     simp only [cstep] at hs
     split at hs
     · cases hs
-    · split at hs <;> (cases hs; first | exact ⟨hem, hno⟩ | exact ⟨by intro hd; simp at hd, hno⟩)
+    · split at hs <;> (cases hs; exact ⟨by first | exact hem | (intro hf; cases hf), hno⟩)
   | coopGo o =>
     simp only [cstep] at hs
     split at hs
-    · cases hs; first | exact ⟨hem, hno⟩ | exact ⟨by intro hd; simp at hd, hno⟩
+    · cases hs; exact ⟨by first | exact hem | (intro hf; cases hf), hno⟩
     · rename_i d hco
       obtain ⟨hp0, hd0⟩ := h.direct d hco
-      simp only [hd0, Bool.false_eq_true, if_false] at hs
+      have hf0 : s.fatal = false := fatal_false_of_live h.fat hd0
+      simp only [hd0, hf0, Bool.false_eq_true, if_false] at hs
       cases o with
-      | again => simp only [] at hs; cases hs; first | exact ⟨hem, hno⟩ | exact ⟨by intro hd; simp at hd, hno⟩
+      | again => simp only [] at hs; cases hs; exact ⟨by first | exact hem | (intro hf; cases hf), hno⟩
       | fatal => simp only [] at hs; cases hs; exact ⟨fun _ => hp0, hno⟩
       | accept k =>
         simp only [] at hs
-        split at hs <;> (cases hs; first | exact ⟨hem, hno⟩ | exact ⟨by intro hd; simp at hd, hno⟩)
+        split at hs <;> (cases hs; exact ⟨by first | exact hem | (intro hf; cases hf), hno⟩)
     · cases hs
   | coopEnq =>
     simp only [cstep] at hs
@@ -491,49 +525,67 @@ theorem cstep_noatt (s s' : Ctl) (a : Act) (h : CInv s) (n : NoAtt s) (hs : cste
     · split at hs
       · cases hs
       · split at hs
-        · cases hs; first | exact ⟨hem, hno⟩ | exact ⟨by intro hd; simp at hd, hno⟩
+        · cases hs; exact ⟨by first | exact hem | (intro hf; cases hf), hno⟩
         · rename_i hdisc
+          have hd0 : s.disc = false := by simpa using hdisc
+          have hf0 : s.fatal = false := fatal_false_of_live h.fat hd0
           cases hs
-          exact ⟨by intro hd; simp [enq] at hd; exact absurd hd hdisc, hno⟩
+          exact ⟨by intro hf; simp only [enq] at hf; first | cases hf | (rw [hf0] at hf; cases hf) | (simp [hf0] at hf), hno⟩
     · cases hs
   | senderBegin =>
     simp only [cstep] at hs
     split at hs
-    · cases hs; first | exact ⟨hem, hno⟩ | exact ⟨by intro hd; simp at hd, hno⟩
+    · cases hs; exact ⟨by first | exact hem | (intro hf; cases hf), hno⟩
     · cases hs
   | senderSend o =>
     simp only [cstep] at hs
     split at hs
     · cases hs
     · split at hs
-      · cases hs; first | exact ⟨hem, hno⟩ | exact ⟨by intro hd; simp at hd, hno⟩
+      · cases hs; exact ⟨by first | exact hem | (intro hf; cases hf), hno⟩
       · rename_i d rest hpend
-        have hd0 : s.disc = false := by
-          cases hd : s.disc with
+        have hf0 : s.fatal = false := by
+          cases hf : s.fatal with
           | false => rfl
-          | true => have := hem hd; rw [hpend] at this; cases this
-        simp only [hd0, Bool.false_eq_true, if_false] at hs
-        cases o with
-        | again => simp only [] at hs; cases hs; first | exact ⟨hem, hno⟩ | exact ⟨by intro hd; simp at hd, hno⟩
-        | fatal => simp only [] at hs; cases hs; exact ⟨fun _ => rfl, hno⟩
-        | accept k =>
-          simp only [] at hs
-          split at hs <;> (cases hs; exact ⟨by intro hd; simp at hd, hno⟩)
+          | true => have := hem hf; rw [hpend] at this; cases this
+        by_cases hdisc : s.disc = true
+        · simp only [hdisc, hf0, Bool.false_eq_true, if_true, if_false] at hs
+          cases hs
+          exact ⟨fun _ => rfl, hno⟩
+        · have hd0 : s.disc = false := by simpa using hdisc
+          simp only [hd0, hf0, Bool.false_eq_true, if_false] at hs
+          cases o with
+          | again => simp only [] at hs; cases hs; exact ⟨by first | exact hem | (intro hf; cases hf), hno⟩
+          | fatal => simp only [] at hs; cases hs; exact ⟨fun _ => rfl, hno⟩
+          | accept k =>
+            simp only [] at hs
+            split at hs <;> (cases hs; exact ⟨by intro hf; first | cases hf | (rw [hf0] at hf; cases hf) | (simp [hf0] at hf), hno⟩)
   | senderFinish =>
     simp only [cstep] at hs
     split at hs
     · cases hs
-    · split at hs <;> (cases hs; first | exact ⟨hem, hno⟩ | exact ⟨by intro hd; simp at hd, hno⟩)
+    · split at hs <;> (cases hs; exact ⟨by first | exact hem | (intro hf; cases hf), hno⟩)
   | envEnq =>
     simp only [cstep] at hs
     split at hs
     · cases hs
-    · cases hs; first | exact ⟨hem, hno⟩ | exact ⟨by intro hd; simp at hd, hno⟩
+    · cases hs; exact ⟨by first | exact hem | (intro hf; cases hf), hno⟩
   | envDone reset =>
     simp only [cstep] at hs
     split at hs
     · cases hs
-    · split at hs <;> (cases hs; first | exact ⟨hem, hno⟩ | exact ⟨by intro hd; simp at hd, hno⟩)
+    · split at hs <;> (cases hs; exact ⟨by first | exact hem | (intro hf; cases hf), hno⟩)
+  | envDisc => simp only [cstep] at hs; cases hs; exact ⟨by first | exact hem | (intro hf; cases hf), hno⟩
+  | coopDisc =>
+    simp only [cstep] at hs
+    split at hs
+    · cases hs
+    · cases hs; exact ⟨by first | exact hem | (intro hf; cases hf), hno⟩
+  | senderPurge =>
+    simp only [cstep] at hs
+    split at hs
+    · cases hs; exact ⟨fun _ => rfl, hno⟩
+    · cases hs
 
 theorem crun_noatt (acts : List Act) : ∀ (s : Ctl), CInv s → NoAtt s → NoAtt (crun s acts) := by
   induction acts with
@@ -544,5 +596,130 @@ theorem crun_noatt (acts : List Act) : ∀ (s : Ctl), CInv s → NoAtt s → NoA
     cases hs : cstep s a with
     | none => simpa using ih s h n
     | some s' => simpa using ih s' (cstep_inv s s' a h hs) (cstep_noatt s s' a h n hs)
+
+/-! ## Part C: every connection's view of a multi-connection history is a Part-B run -/
+
+theorem crun_append (a b : List Act) : ∀ (s : Ctl), crun s (a ++ b) = crun (crun s a) b := by
+  induction a with
+  | nil => intro s; rfl
+  | cons x xs ih => intro s; simp only [List.cons_append, crun]; exact ih _
+
+/-- the view's state is what `crun` makes of the view's own action list from the initial state -/
+def MOk (pb : Nat) (v : MView) : Prop := v.st = crun { pb := pb } v.trace
+
+theorem app_ok (pb : Nat) (v : MView) (acts : List Act) (h : MOk pb v) : MOk pb (v.app acts) := by
+  unfold MOk MView.app at *
+  simp only [crun_append, ← h]
+
+theorem appAll_ok (pb : Nat) (f : Nat → MView → List Act) : ∀ (vs : List MView) (i : Nat),
+    (∀ v ∈ vs, MOk pb v) → ∀ v ∈ appAll f i vs, MOk pb v := by
+  intro vs
+  induction vs with
+  | nil => intro i _ v hv; simp [appAll] at hv
+  | cons x xs ih =>
+    intro i h v hv
+    simp only [appAll, List.mem_cons] at hv
+    rcases hv with rfl | hv
+    · exact app_ok pb x _ (h x (by simp))
+    · exact ih (i + 1) (fun w hw => h w (by simp [hw])) v hv
+
+theorem setClosed_ok (pb c : Nat) : ∀ (vs : List MView) (i : Nat),
+    (∀ v ∈ vs, MOk pb v) → ∀ v ∈ setClosed c i vs, MOk pb v := by
+  intro vs
+  induction vs with
+  | nil => intro i _ v hv; simp [setClosed] at hv
+  | cons x xs ih =>
+    intro i h v hv
+    simp only [setClosed, List.mem_cons] at hv
+    rcases hv with rfl | hv
+    · have hx := h x (by simp)
+      split
+      · exact hx
+      · exact hx
+    · exact ih (i + 1) (fun w hw => h w (by simp [hw])) v hv
+
+theorem setStamp_ok (pb c t : Nat) : ∀ (vs : List MView) (i : Nat),
+    (∀ v ∈ vs, MOk pb v) → ∀ v ∈ setStamp c t i vs, MOk pb v := by
+  intro vs
+  induction vs with
+  | nil => intro i _ v hv; simp [setStamp] at hv
+  | cons x xs ih =>
+    intro i h v hv
+    simp only [setStamp, List.mem_cons] at hv
+    rcases hv with rfl | hv
+    · have hx := h x (by simp)
+      split
+      · exact hx
+      · exact hx
+    · exact ih (i + 1) (fun w hw => h w (by simp [hw])) v hv
+
+theorem project_ok (pb : Nat) (vs : List MView) (c : Nat) (b a : Ctl) (h : ∀ v ∈ vs, MOk pb v) :
+    ∀ v ∈ project vs c b a, MOk pb v := by
+  unfold project; exact appAll_ok pb _ vs 0 h
+
+theorem actOn_ok (pb : Nat) (vs : List MView) (c : Nat) (acts : List Act) (h : ∀ v ∈ vs, MOk pb v) :
+    ∀ v ∈ actOn vs c acts, MOk pb v := by
+  unfold actOn
+  split
+  · exact h
+  · have h' := appAll_ok pb (fun i _ => if i = c then acts else []) vs 0 h
+    simp only []
+    split
+    · exact h'
+    · apply project_ok
+      split
+      · exact setStamp_ok pb c _ _ 0 h'
+      · exact h'
+
+theorem flushOne_ok (pb : Nat) (vs : List MView) (w : Nat × List Outcome) (h : ∀ v ∈ vs, MOk pb v) :
+    ∀ v ∈ flushOne vs w, MOk pb v := by
+  unfold flushOne
+  split
+  · exact h
+  · split
+    · exact h
+    · exact actOn_ok pb vs _ _ h
+
+theorem purgeOne_ok (pb : Nat) (vs : List MView) (c : Nat) (h : ∀ v ∈ vs, MOk pb v) :
+    ∀ v ∈ purgeOne vs c, MOk pb v := by
+  unfold purgeOne
+  split
+  · exact h
+  · split
+    · exact actOn_ok pb vs _ _ h
+    · exact h
+
+theorem foldl_ok {α : Type} (pb : Nat) (f : List MView → α → List MView)
+    (hf : ∀ vs x, (∀ v ∈ vs, MOk pb v) → ∀ v ∈ f vs x, MOk pb v) :
+    ∀ (xs : List α) (vs : List MView), (∀ v ∈ vs, MOk pb v) → ∀ v ∈ xs.foldl f vs, MOk pb v := by
+  intro xs
+  induction xs with
+  | nil => intro vs h; exact h
+  | cons x xs ih => intro vs h; exact ih (f vs x) (hf vs x h)
+
+theorem mstep_ok (pb : Nat) (vs : List MView) (op : MOp) (h : ∀ v ∈ vs, MOk pb v) : ∀ v ∈ mstep vs op, MOk pb v := by
+  cases op with
+  | send c d o => exact actOn_ok pb vs c _ h
+  | disc c close =>
+    simp only [mstep]
+    have h' := appAll_ok pb (fun i _ => if i = c then [Act.coopDisc] else [Act.envDisc]) vs 0 h
+    split
+    · exact setClosed_ok pb c _ 0 h'
+    · exact h'
+  | flush ws =>
+    simp only [mstep]
+    apply foldl_ok pb flushOne (fun vs x hx => flushOne_ok pb vs x hx)
+    split
+    · exact foldl_ok pb purgeOne (fun vs x hx => purgeOne_ok pb vs x hx) _ vs h
+    · exact h
+
+theorem minit_ok (pb n : Nat) : ∀ v ∈ minit pb n, MOk pb v := by
+  intro v hv
+  have := List.eq_of_mem_replicate hv
+  subst this; rfl
+
+/-- in every multi-connection history every connection's state is `crun` of that connection's own action list -/
+theorem mrun_ok (pb n : Nat) (ops : List MOp) : ∀ v ∈ mrun pb n ops, MOk pb v :=
+  foldl_ok pb mstep (fun vs x hx => mstep_ok pb vs x hx) ops (minit pb n) (minit_ok pb n)
 
 end Pox.SendPath
